@@ -131,6 +131,8 @@ type tracer struct {
 	throughFields bool
 	// throughChans: continue from a received value to every value sent on a channel with the same origin
 	throughChans bool
+	// argsThrough: calls (by callName) whose result is derived from all their arguments
+	argsThrough map[string]bool
 
 	callers map[*ssa.Function][]ssa.CallInstruction
 }
@@ -287,9 +289,22 @@ func (t *tracer) origins(v ssa.Value) []ssa.Value {
 				addRoot(v)
 			}
 		case *ssa.Call:
+			if t.argsThrough != nil && t.argsThrough[callName(x)] {
+				for _, a := range callArgs(x) {
+					walk(a, depth)
+				}
+				return
+			}
 			if !t.walkCall(x, 0, depth, walk) {
 				addRoot(v)
 			}
+		case *ssa.BinOp:
+			if x.Op == token.ADD && t.argsThrough != nil && t.argsThrough["string+"] {
+				walk(x.X, depth)
+				walk(x.Y, depth)
+				return
+			}
+			addRoot(v)
 		case *ssa.UnOp:
 			switch x.Op {
 			case token.MUL: // load
